@@ -26,8 +26,9 @@ import (
 // ---- C13: fault placement on a scripted connection (Lifecycle.tla) ----
 
 type inEvent struct {
-	data []byte
-	err  error
+	data  []byte
+	err   error
+	delay time.Duration // a read error that takes this long to surface (the Read call is already in progress)
 }
 
 // LifeConn is a scripted net.Conn: reads are fed event by event, writes succeed, fail, or block
@@ -59,6 +60,9 @@ func (c *LifeConn) Read(p []byte) (int, error) {
 	select {
 	case ev := <-c.in:
 		if ev.err != nil {
+			if ev.delay > 0 {
+				time.Sleep(ev.delay)
+			}
 			return 0, ev.err
 		}
 		n := copy(p, ev.data)
@@ -137,6 +141,7 @@ type LScenario struct {
 	Partial bool   `json:"partial"` // the cause hits inside an inbound message
 	Cause2  string `json:"cause2"`  // a second cause shortly after the first ("" = none): overlapping terminations
 	GapMs   int    `json:"gapMs"`   // delay between the two causes
+	ErrDelayMs int `json:"errDelayMs"` // peer_close / peer_reset: the failing Read returns only after this delay
 }
 
 type LifeObs struct {
@@ -337,9 +342,9 @@ func RunLifecycle(t *testing.T, sc *LScenario, emit func(*LifeObs)) {
 		fire := func(cause string) {
 			switch cause {
 			case "peer_close":
-				conn.in <- inEvent{err: io.EOF}
+				conn.in <- inEvent{err: io.EOF, delay: time.Duration(sc.ErrDelayMs) * time.Millisecond}
 			case "peer_reset":
-				conn.in <- inEvent{err: errors.New("read tcp: connection reset by peer")}
+				conn.in <- inEvent{err: errors.New("read tcp: connection reset by peer"), delay: time.Duration(sc.ErrDelayMs) * time.Millisecond}
 			case "local_close":
 				if ini != nil {
 					ini.Close()
@@ -360,9 +365,9 @@ func RunLifecycle(t *testing.T, sc *LScenario, emit func(*LifeObs)) {
 		// the cause
 		switch sc.Cause {
 		case "peer_close":
-			conn.in <- inEvent{err: io.EOF}
+			conn.in <- inEvent{err: io.EOF, delay: time.Duration(sc.ErrDelayMs) * time.Millisecond}
 		case "peer_reset":
-			conn.in <- inEvent{err: errors.New("read tcp: connection reset by peer")}
+			conn.in <- inEvent{err: errors.New("read tcp: connection reset by peer"), delay: time.Duration(sc.ErrDelayMs) * time.Millisecond}
 		case "write_error", "peer_stops_reading":
 			if sc.Cause == "write_error" {
 				conn.setMode("error")
